@@ -565,10 +565,18 @@ func checkMarkers(r *ev.Run, env map[string]string, cases []markerCase, origin s
 				var observations []obs
 				observations = append(observations, resolveMarker(c.Marker, c.Extras, true))
 				fresh[j.i], wants[j.i] = observations[0], j.want
+				paths := []string{"via-top"}
 				if len(c.Extras) == 0 {
 					// Without extras the root's own dependencies take a second
 					// path through the resolver (evaluated before resolution starts).
 					observations = append(observations, resolveMarker(c.Marker, nil, false))
+					paths = append(paths, "root")
+				} else {
+					// With extras: the same request arriving only after root has
+					// been pinned without any (top -> root, top -> via -> root[extras]).
+					observations = append(observations, resolveMarkerLate(c.Marker, c.Extras))
+					paths = append(paths, "late-extras")
+					r.Count("marker_late_extras_resolutions", 1)
 				}
 				r.Eval(int64(len(observations)))
 				r.Count("marker_in_domain", 1)
@@ -584,10 +592,7 @@ func checkMarkers(r *ev.Run, env map[string]string, cases []markerCase, origin s
 					}
 				}
 				for oi, o := range observations {
-					path := "via-top"
-					if oi == 1 {
-						path = "root"
-					}
+					path := paths[oi]
 					cs := Case{Kind: "marker", Marker: c.Marker, Extras: c.Extras, Lib: o.String() + " (" + path + ")", Ref: fmt.Sprint(j.want)}
 					switch {
 					case o.Budget:
@@ -596,7 +601,7 @@ func checkMarkers(r *ev.Run, env map[string]string, cases []markerCase, origin s
 						report("C16:marker:panic", fmt.Sprintf("marker %q extras %v: resolver panics: %s", c.Marker, c.Extras, o.Panic), cs)
 					case o.Err != "":
 						cl := "C16:marker:resolver-error"
-						if sh := explain(c.Marker, p.atoms, c.Extras, oi == 0, j.want, env, vi); sh != "" {
+						if sh := explain(c.Marker, p.atoms, c.Extras, paths[oi] != "root", j.want, env, vi); sh != "" {
 							cl += ":" + sh
 						}
 						report(cl, fmt.Sprintf("marker %q extras %v: packaging evaluates to %v, resolver fails: %s", c.Marker, c.Extras, j.want, o.Err), cs)
@@ -604,7 +609,7 @@ func checkMarkers(r *ev.Run, env map[string]string, cases []markerCase, origin s
 						r.Inconclusive(fmt.Sprintf("marker %q: unexpected graph shape: %s", c.Marker, o.Shape))
 					case o.Edge != j.want:
 						cl := "C16:marker:truth"
-						if sh := explain(c.Marker, p.atoms, c.Extras, oi == 0, j.want, env, vi); sh != "" {
+						if sh := explain(c.Marker, p.atoms, c.Extras, paths[oi] != "root", j.want, env, vi); sh != "" {
 							cl += ":" + sh
 						}
 						report(cl, fmt.Sprintf("marker %q extras %v: packaging evaluates to %v, resolver edge root->dep present=%v (%s)", c.Marker, c.Extras, j.want, o.Edge, path), cs)
